@@ -14,7 +14,7 @@ PROP = dict(
          "panel types -1..7; 24 text samples incl. non-ASCII / key-looking strings in every identity field; all 20 SysStat "
          "fields with 28 float boundary values; multi-entry maps; lists; multi-line payloads; random sparse/dense messages, "
          "2-6 messages per call; the same through proto.Marshal -> proto.Unmarshal -> encoder -> Join(LF) as the C binding "
-         "does (mode c); values outside the ASCII-representable domain for the correspondence only (tag B:ood). "
+         "does, incl. the C.CString cut at the first NUL (mode c; 15 % of these with a NUL byte in a string field: tag B:c.nul-truncated, correspondence only); values outside the ASCII-representable domain for the correspondence only (tag B:ood). "
          "non-trivial = at least one line produced; distinct = distinct record text",
     trusted_base=["strconv float formatting (%.1f / %.2f) and encoding/json of NetworkConfig enter as oracle values computed by the harness (strconv.FormatFloat 'f' 32 / json.Marshal), never compared numerically",
                   "Go map iteration order: the map= lines of one message are compared as a set",
@@ -27,16 +27,23 @@ CLAIM = dict(
     text="Lean theorems over the encoder model EncOut.encOut read by the independent grammar reader Spec.Out.readOutbound (Appendix B; never imports Model/). "
          "FULL STRENGTH, all values: event_line (every 32-bit id x edge in {0,1,2,4,8,16} x pressed), value_ranges + enc/speed/abs/raw_line (%d of every "
          "signed / unsigned 32-bit value incl. boundaries re-reads to the same value), caps_all_subsets (all 2^13 capability sets, generic over the "
-         "capability table), map_line, register_line, encOut_no_lf (every input). "
-         "encOut_sound: for every list of messages in the decidable ASCII-representable domain Spec.Out.inDomainOut (any number of messages / events / "
+         "capability table) + caps_table_tie (that table — order, names, Go fields — equals the tables the extractor regenerates from the encoder's "
+         "and the decoder's source), map_line, register_line, encOut_no_lf (every input). "
+         "encOut_sound_full: for every list of messages in the decidable ASCII-representable domain Spec.Out.inDomainOut (any number of messages / events / "
          "registers / map entries, every section: flow, identity, capability list, topology, profiles, network config, sleep, heartbeat, dimming, "
          "connections, run-time statistics, messages, map, health, 20-field SysStat) readOutbound(encOut ms) = ms.flatMap effectsOfOut exactly, in "
-         "message order, hence the executable comparison approx holds (encOut_sound_approx); non-vacuity example by decide. "
-         "encOut_sound_full: payload fields (SVG/JSON/message text, flattened by C07) are covered for EVERY valid-UTF-8 value with any line-feed / "
-         "indentation structure (Lemmas/StripContent.lean: the flattening keeps exactly the white-space-free content); no hypothesis beyond inDomainOut "
-         "and the float-text oracle convention. "
+         "message order, hence the executable comparison approx holds (encOut_sound_full_approx); non-vacuity examples by decide. "
+         "Payloads: JSON profiles, topology JSON and message texts are compared in the normal form normLines (lines without the white space at their "
+         "two ends, concatenated) — everything except line feeds and white space at line edges must survive, interior white space included — for EVERY "
+         "valid-UTF-8 value with any line structure (Lemmas/StripIdem.lean strip_trimmed: the flattening of valid UTF-8 is trimmed again); "
+         "msg_line_verbatim / errormsg_line_verbatim / profile_lines_verbatim / topology_lines_verbatim: a payload without LF and outer white space is on the "
+         "line byte for byte; payload_exact_noLF: the Spec's effect of such a payload is the payload itself. The topology SVG is compared by "
+         "white-space-free content (its flattening inserts blanks), for every byte string. "
+         "C binding: cbinding_lines (no NUL in the returned strings => the C caller, reading to the first NUL and splitting at LF, gets exactly the strings), "
+         "encOut_no_nul (no NUL in the message's strings => none in the output), cbinding_nul_truncates_counterexample (a NUL cuts the C string: observation, "
+         "NUL is not printable). "
          "Rests on correspondence: model = OutboundMessagesToRawPanelASCIIstrings (sampled; all 8192 capability subsets in the thorough tier), "
-         "float formatting and JSON of NetworkConfig (oracle values), Go map order (map lines compared as a set).",
+         "float formatting and JSON of NetworkConfig (oracle values), Go map order (map lines compared as a set), C.CString = bytes + NUL (emulated in mode c).",
     note=TB,
-    technique="Lean 4 proof (list induction, decimal round trip, generic capability-table argument) + model/implementation correspondence incl. the C-binding path",
+    technique="Lean 4 proof (list induction, decimal round trip, generic capability-table argument, UTF-8 white-space rune analysis) + model/implementation correspondence incl. the C-binding path",
 )
